@@ -13,7 +13,7 @@ from ..engine import flow, cfg as cfgmod
 from ..engine import pattern as P
 from ..engine.facts import ancestors, dotted, const, src, walk_func, enclosing_stmt
 from . import skeletons as sk
-from .common import calls, contains, pn, access_paths, assigned_from, branch_paths, resolve, resolve_deep, guards_of
+from .common import calls, contains, pn, access_paths, assigned_from, branch_paths, resolve, resolve_deep, guards_of, facts_at
 from .common import _fold_not as _fold
 
 
@@ -96,18 +96,28 @@ def registration(ctx):
     # misplaced named blocks
     rs = [r for r in walk_func(vb) if isinstance(r, ast.Raise)]
     msgs = " ".join(src(r) for r in rs)
-    guard = [i for i in vb.body if isinstance(i, ast.If) and P.has(i.test, "$n is not self.node") and P.has(i.test, "not $n.is_anonymous")]
+    # rejections: a raise that is reached exactly for a named block which is not the scope's own node, when the scope's node is of a given class
+    np_ = pn(vb, 1)
+    rejects = {}
+    for r in rs:
+        fa = facts_at(r, vb, resolve_locals=True)
+        if ("%s is self.node" % np_, False) in fa and ("%s.is_anonymous" % np_, False) in fa:
+            for t_, v_ in fa:
+                if v_ and t_.startswith("isinstance(self.node, "):
+                    for cls_ in ("DefTag", "CallTag", "CallNamespaceTag"):
+                        if "parsetree." + cls_ in t_:
+                            rejects.setdefault(cls_, []).append(r)
+    guard = [r_ for v_ in rejects.values() for r_ in v_]
     ctx.check(bool(guard), "misplaced.guard", db.where(vb), "no test for a named block nested in another construct", "named block other than the scope's own node")
     if guard:
-        t = src(guard[0])
-        ctx.check("isinstance(self.node, parsetree.DefTag)" in t and "not allowed inside of def" in t, "misplaced.in-def", db.where(guard[0]), "named block inside <%def> is not rejected", "rejected inside def")
-        ctx.check("parsetree.CallTag" in t and "parsetree.CallNamespaceTag" in t and "<%%call>" in t or ("parsetree.CallTag" in t and "parsetree.CallNamespaceTag" in t), "misplaced.in-call", db.where(guard[0]), "named block inside <%call>/<%ns:def> is not rejected for both call tag classes", "rejected inside both call tag classes")
-        ctx.check(all("**node.exception_kwargs" in src(r) for r in ast.walk(guard[0]) if isinstance(r, ast.Raise)), "misplaced.position", db.where(guard[0]), "misplaced-block error carries no position", "position carried")
+        ctx.check("DefTag" in rejects, "misplaced.in-def", db.where(guard[0]), "named block inside <%def> is not rejected", "rejected inside def")
+        ctx.check("CallTag" in rejects and "CallNamespaceTag" in rejects, "misplaced.in-call", db.where(guard[0]), "named block inside <%call>/<%ns:def> is not rejected for both call tag classes", "rejected inside both call tag classes")
+        ctx.check(all("**%s.exception_kwargs" % np_ in src(r) for r in guard), "misplaced.position", db.where(guard[0]), "misplaced-block error carries no position", "position carried")
     # exhaustive over parsetree classes that take a body declaration and an expression (call-like tags)
     pt = db.mod("parsetree")
     calllike = [c.name for c in pt.tree.body if isinstance(c, ast.ClassDef) and any(isinstance(s, ast.Assign) and dotted(s.targets[0]) == "self.body_decl" for s in ast.walk(c)) and any(isinstance(s, ast.Assign) and dotted(s.targets[0]) == "self.expression" for s in ast.walk(c))]
     for name in calllike:
-        ctx.check(guard and ("parsetree." + name) in src(guard[0]), "misplaced.class:" + name, db.where(vb), "tag class %s takes a body like <%%call> but named blocks inside it are not rejected" % name, "covered")
+        ctx.check(name in rejects or any(("parsetree." + name) in t_ for r_ in guard for t_, v_ in facts_at(r_, vb, resolve_locals=True) if v_), "misplaced.class:" + name, db.where(vb), "tag class %s takes a body like <%%call> but named blocks inside it are not rejected" % name, "covered")
     ns = db.func("codegen._GenerateRenderMethod.write_namespaces")
     ctx.check("Can't put anonymous blocks inside" in src(ns), "anon-in-namespace", db.where(ns), "anonymous blocks inside <%namespace> are not rejected", "rejected")
 
